@@ -1,7 +1,10 @@
 import TV.Properties.C14
+import TV.ShapeOK.Queue
 #print axioms TV.C14.C14_at_most_once
 #print axioms TV.C14.C14_only_failed
 #print axioms TV.C14.C14_exactly_once_when_quiet
 #print axioms TV.C14.C14_every_error_reported
 #print axioms TV.C14.C14_subs_monotone
 #print axioms TV.C14.C14_subscribe_anytime
+#print axioms TV.ShapeOK.Queue.discipline
+#print axioms TV.ShapeOK.Queue.sites_present
